@@ -100,11 +100,13 @@ HARNESSES += [
     W('c_to_vec', 'C06', cfg='feature = "alloc"', ns_q=[2], ns_t=[1, 2, 3]),
 ]
 # equality / ordering / hashing over (N, M) pairs of u8 buffers
-for _n, _m, _tier in [(0, 0, 'q'), (1, 2, 'q'), (2, 2, 'q'), (3, 2, 'q'), (2, 3, 'q'), (3, 3, 't'), (0, 2, 't'), (2, 0, 't'), (1, 1, 't'), (3, 1, 't'), (1, 3, 't'), (4, 3, 't'), (3, 4, 't')]:
+for _n, _m, _tier in [(0, 0, 'q'), (1, 2, 'q'), (2, 2, 'q'), (3, 2, 'q'), (2, 3, 'q'), (3, 3, 'q'), (0, 2, 't'), (2, 0, 't'), (1, 1, 't'), (3, 1, 't'), (1, 3, 't'), (4, 3, 't'), (3, 4, 't')]:
     HARNESSES.append(H('c_eq', 'C04 C13', name='c_eq_m%d' % _m, call='c_eq::<{N}, %d>()' % _m, untagged='C13',
                        ns_q=[_n] if _tier == 'q' else [], ns_t=[_n], unwind=lambda n, m=_m: max(n, m) + 3))
 HARNESSES += [
     H('c_eq_slice', 'C04 C13', call=lambda n: 'c_eq_slice::<%d, %d>()' % (n, n + 1), untagged='C13', ns_q=[0, 2], ns_t=[0, 1, 2, 3], unwind=lambda n: n + 4),
+    # c_debug (Debug output == slice's, via a byte sink) exists in verif_kani_ops.rs but is NOT run: core::fmt exhausts CBMC
+    # (no result within the 600 s harness timeout even at N=0); Debug stays an assumed contract on core::fmt::DebugList.
     H('c_hash_ord', 'C04 C13', untagged='C13', ns_q=[0, 2], ns_t=[0, 1, 2, 3], unwind=lambda n: n + 4),
     # std::io
     H('c_io_write', 'C14 C04', cfg='feature = "std"', call=lambda n: 'c_io_write::<%d, %d>()' % (n, n + 2), ns_q=[0, 1, 3], ns_t=[0, 1, 2, 3, 4], unwind=lambda n: n + 5),
@@ -188,3 +190,12 @@ for _nm in _C18_ALL:
         _e['untagged'] = []
     _extra.append(_e)
 HARNESSES += _extra
+
+# BOUNDED STAND-IN (native execution with real injected panics; never run by Kani): unwinding paths of C05 / C06
+HARNESSES += [
+    H('p_destructor_panic', 'C05', native_only=True, untagged='', ns_q=[1, 2, 3], ns_t=[1, 2, 3, 4]),
+    H('p_callback_panic', 'C06', native_only=True, untagged='', ns_q=[1, 2, 3], ns_t=[1, 2, 3, 4]),
+]
+for _n, _m in [(0, 2), (1, 3), (2, 2), (2, 4), (3, 5)]:
+    HARNESSES.append(H('p_destructor_panic_owned', 'C05', name='p_destructor_panic_owned_m%d' % _m, native_only=True, untagged='',
+                       call='p_destructor_panic_owned::<{N}, %d>()' % _m, ns_q=[_n], ns_t=[_n]))
